@@ -10,6 +10,7 @@ and only after all of its dependencies, regardless of the order in which
 rules and packages are declared.
 -/
 import PubModel.C11.Lemmas4
+import PubModel.C12.Lemmas
 import PubModel.C11.Obligations
 
 namespace PubModel.C11
@@ -326,6 +327,25 @@ theorem build_order (nodes : List Node) (srcs L targets : List Str) (fuel : Nat)
       cases hr with
       | refl => simp [isRule, h] at hrule
       | step e _ => obtain ⟨m, hm, _⟩ := e; rw [h] at hm; simp at hm
+
+/-- **Requested targets resolve against the right base**: an absolute target names the
+    node from the workspace root whatever the work dir, a relative one stays under the work dir. -/
+theorem targets_resolve (ws : List Seg) (hw : ∀ s ∈ ws, Plain s) (hne : ws ≠ []) (t : Str) :
+    (isAbs t = true → resolveTargets (joinSegs ws) [t] = [joinSegs (cleanSegs true (split t))]) ∧
+    (isAbs t = false → resolveTargets (joinSegs ws) [t] = [joinSegs (ws ++ cleanSegs true (split t))]) := by
+  have hn : joinSegs ws ≠ [] := joinSegs_ne_nil ws hne hw
+  unfold resolveTargets
+  rw [if_neg hn]
+  simp only [List.map_cons, List.map_nil, makePath_eq]
+  constructor
+  · intro h; rw [if_pos h]
+  · intro h
+    rw [h]
+    simp only [Bool.false_eq_true, if_false]
+    rw [makeRelPath_eq, cleanSegs_split_joinSegs true ws hw]
+
+example : resolveTargets "a".toList ["/b/y".toList, "y".toList, "../x/y".toList] =
+    ["b/y".toList, "a/y".toList, "a/x/y".toList] := by decide
 
 /-- non-vacuity: a diamond with a file set; every rule once, dependencies first -/
 example : run (fixedCfg false)
